@@ -699,7 +699,7 @@ impl StkDump {
                 .unwrap_or_else(|| "?".into())
         };
         let secs = |x: &serde_json::Value| -> String {
-            x.as_str().and_then(|s| s.parse::<u128>().ok()).map(|n| (n / 1_000_000_000).to_string()).unwrap_or_else(|| "?".into())
+            x.as_str().and_then(|s| s.parse::<u128>().ok()).map(|n| n.to_string()).unwrap_or_else(|| "?".into())
         };
         if rest == b"staking_info" {
             self.info = Some(format!("{}:{}:{}", j["bonded_denom"].as_str().unwrap_or("?"), j["unbonding_time"], dec(&j["apr"])));
